@@ -141,6 +141,9 @@ pub enum IdRef {
     SnapVid(usize),
     /// n-th fresh id of the history (same concrete uuid on every subject)
     Fresh(usize),
+    /// the version j steps before client c's chain base inside the chain of whichever other
+    /// client owns that base (ids "beyond one's own base" in a foreign chain)
+    BeforeBase(usize, usize),
 }
 
 #[derive(Clone, Debug, PartialEq)]
